@@ -637,7 +637,7 @@ fn make_send(trait_: &mut ItemTrait) {
         if let ReturnType::Type(_, ret_ty) = &mut fn_.sig.output {
             // the default case already triggers an error below in Endpoint::new
             *ret_ty = syn::parse_quote_spanned! { ret_ty.span() =>
-                impl conjure_http::private::Future<Output = #ret_ty> + Send
+                impl conjure_http::private::Future<Output = #ret_ty> + conjure_http::private::Send
             };
         };
     }
